@@ -96,6 +96,7 @@ func (b *Buffer) TakeRedactableBytes() m.RedactableBytes {
 	b.buf = nil
 	b.validUntil = 0
 	b.mode = UnsafeEscaped
+	b.markerOpen = false
 	return m.RedactableBytes(r)
 }
 
@@ -115,6 +116,7 @@ func (b *Buffer) TakeRedactableString() m.RedactableString {
 	b.buf = nil
 	b.validUntil = 0
 	b.mode = UnsafeEscaped
+	b.markerOpen = false
 	return r
 }
 
